@@ -28,6 +28,25 @@ use crate::config::Config;
 
 const SMALL_PEER_MAP_CAPACITY: usize = 2;
 
+/// Verification hook: numbered probe points between the individual steps of a
+/// scrape export, at which the external harness can abort the process.
+#[cfg(feature = "verif-hooks")]
+pub mod verif_hooks {
+    use std::sync::atomic::{AtomicUsize, Ordering};
+
+    /// Abort when this many probe points have been passed (0: never)
+    pub static EXPORT_ABORT_AT: AtomicUsize = AtomicUsize::new(0);
+    pub static EXPORT_PROBES: AtomicUsize = AtomicUsize::new(0);
+
+    pub fn export_probe() {
+        let n = EXPORT_PROBES.fetch_add(1, Ordering::SeqCst) + 1;
+
+        if n == EXPORT_ABORT_AT.load(Ordering::SeqCst) {
+            ::std::process::abort();
+        }
+    }
+}
+
 use aquatic_udp_protocol::InfoHash;
 use parking_lot::RwLock;
 
@@ -102,7 +121,12 @@ impl TorrentMaps {
         let mut statistics_messages = Vec::new();
         let mut opt_scrape_export_writer = if export_full_scrape {
             match File::create(config.scrape_exports.tmp_path()) {
-                Ok(file) => Some(BufWriter::new(file)),
+                Ok(file) => {
+                    #[cfg(feature = "verif-hooks")]
+                    verif_hooks::export_probe();
+
+                    Some(BufWriter::new(file))
+                }
                 Err(err) => {
                     ::log::error!(
                         "Could not create temporary scrape export file at path {}: {:?}",
@@ -164,6 +188,9 @@ impl TorrentMaps {
             } else {
                 drop(w);
 
+                #[cfg(feature = "verif-hooks")]
+                verif_hooks::export_probe();
+
                 if let Err(err) = ::std::fs::rename(
                     config.scrape_exports.tmp_path(),
                     &config.scrape_exports.path,
@@ -174,6 +201,9 @@ impl TorrentMaps {
                         err
                     );
                 }
+
+                #[cfg(feature = "verif-hooks")]
+                verif_hooks::export_probe();
             }
         }
     }
@@ -339,6 +369,9 @@ impl<I: Ip> TorrentMapShards<I> {
                                 err
                             );
                         }
+
+                        #[cfg(feature = "verif-hooks")]
+                        verif_hooks::export_probe();
                     }
                 }
 
